@@ -379,7 +379,7 @@ def main():
           '/-- splice_initial_commitment_signed: the update recording the counterparty\'s initial post-splice commitment pauses the channel and sets monitor_pending_tx_signatures -/',
           'def spliceCsMarksTxSignaturesPending : Bool := %s' % sp.group(1),
           '/-- FundedChannel::tx_signatures: our tx_signatures are NOT put into the answer iff -/',
-          'def txSignaturesHeld (awaiting_monitor_update monitor_pending_tx_signatures : Bool) : Bool := %s' % tx_held,
+          'def txSignaturesHeld (awaiting_monitor_update monitor_pending_tx_signatures signer_pending_funding : Bool) : Bool := %s' % tx_held,
           '/-- signer_maybe_unblocked: our tx_signatures are released iff -/',
           'def signerUnblockReleasesTxSignatures (awaiting_monitor_update signer_pending_funding : Bool) : Bool := %s' % su_l,
           '/-- monitor_updating_restored: the tx_signatures owed (monitor_pending_tx_signatures, cleared) are still withheld iff -/',
